@@ -99,9 +99,19 @@ MoveOf(n, oa, up, r) ==
    new |-> IF up THEN [i \in 1..n |-> <<(IF i <= 3 THEN n - 3 + i ELSE i - 3), 0>>]
                  ELSE [i \in 1..n |-> <<(IF i <= n - 3 THEN i + 3 ELSE i - (n - 3)), 0>>],
    r |-> r, kind |-> "move"]
+\* two adjacent three-line blocks cut from the top and pasted at the bottom in the opposite order (and back)
+SwapOf(a, b, up, r) ==
+  LET A == <<<<1, 0>>, <<2, 0>>, <<3, 0>>>>  B == <<<<4, 0>>, <<5, 0>>, <<6, 0>>>>
+      R == [i \in 1..7 |-> <<6 + i, 0>>]          \* more unchanged lines than moved ones, so that the blocks are what moves
+      hs == [i \in 1..7 |-> "H"]
+  IN [old |-> IF up THEN R \o A \o B ELSE A \o B \o R,
+      oa |-> IF up THEN hs \o <<a, a, a, b, b, b>> ELSE <<a, a, a, b, b, b>> \o hs,
+      new |-> IF up THEN B \o A \o R ELSE R \o B \o A,
+      r |-> r, kind |-> "move"]
 MoveCases ==
   IF ~WithMoves THEN {}
   ELSE UNION { { MoveOf(n, oa, up, r) : oa \in SeqsOfLen(Authors, n), up \in BOOLEAN, r \in Reporters } : n \in 4..5 }
+       \cup { SwapOf(a, b, up, r) : a \in Authors, b \in Authors, up \in BOOLEAN, r \in Reporters }
 
 -----------------------------------------------------------------------------
 (* Properties over an outcome record                                          *)
